@@ -88,6 +88,16 @@ type TdxMeta struct {
 	RepBase uint64 `json:"rep_base,omitempty"`
 	RepStep uint64 `json:"rep_step,omitempty"`
 	RepSize uint64 `json:"rep_size,omitempty"`
+	// RepFV != nil turns the generated sections into firmware-volume sections (type CFV) that each carry
+	// RepFV.DataSize bytes of the file from RepFV.DataOff on (memory size = RepSize), with RepFV.Attr.
+	RepFV *RepFV `json:"rep_fv,omitempty"`
+}
+
+// RepFV describes the file range of generated firmware-volume sections (see TdxMeta.Rep).
+type RepFV struct {
+	DataOff  uint32 `json:"data_off"`
+	DataSize uint32 `json:"data_size"`
+	Attr     uint32 `json:"attr"`
 }
 
 // Patch overwrites W bytes (1,2,4,8) at Off with V, little endian, after everything else is written;
@@ -151,7 +161,11 @@ func (m *TdxMeta) allSecs() []Sec32 {
 	out := make([]Sec32, 0, len(m.Secs)+m.Rep)
 	out = append(out, m.Secs...)
 	for k := 0; k < m.Rep; k++ {
-		out = append(out, Sec32{Base: m.RepBase + uint64(k)*m.RepStep, Size: m.RepSize, Type: tdTempMem})
+		x := Sec32{Base: m.RepBase + uint64(k)*m.RepStep, Size: m.RepSize, Type: tdTempMem}
+		if m.RepFV != nil {
+			x.DataOff, x.DataSize, x.Type, x.Attr = m.RepFV.DataOff, m.RepFV.DataSize, tdCFV, m.RepFV.Attr
+		}
+		out = append(out, x)
 	}
 	return out
 }
